@@ -464,6 +464,13 @@ func init() {
 				if rng.chance(1, 4) {
 					add("single brace edit, no final newline", bytes.TrimRight(e, "\n"), true)
 				}
+				// whole-line comments are opaque: a brace inside one balances nothing
+				for _, mark := range []string{"#", "//"} {
+					ls := strings.SplitAfter(string(e), "\n")
+					at := rng.intn(len(ls))
+					com := pick(rng, []string{"", " ", "\t"}) + mark + pick(rng, []string{"", " "}) + pick(rng, []string{"}", "{", "} else {", "if x == 1 {", "closes the block }", "}}", "for i := 0; i < 3; i++ {"}) + "\n"
+					add("single brace edit plus a "+mark+" comment with braces", []byte(strings.Join(ls[:at], "")+com+strings.Join(ls[at:], "")), true)
+				}
 			}
 			add("unregistered callback", []byte(p+"nosuchcallback(jso.a)\n"), true)
 			add("unregistered getter", []byte("obj.Id = nosuchgetter(jso.a)\n"+p), true)
